@@ -228,7 +228,8 @@ def features(t, out=None):
     elif k == "bin":
         if t[1] == "POW" and t[2][0] == "bin" and t[2][1] == "POW":
             out["pow_left_pow"] = True
-        if t[1] in ("MUL", "DIV", "POW") and t[2][0] == "un":
+        # (a unary MINUS at the base of ** is bracketed by the writer: not part of the known finding)
+        if t[1] in ("MUL", "DIV", "POW") and t[2][0] == "un" and not (t[1] == "POW" and t[2][1] == "MINUS"):
             out["sign_left"] = True
         features(t[2], out)
         features(t[3], out)
